@@ -22,14 +22,14 @@ func Quiet() {
 
 // Arg is the argument type of the instrumented handlers.
 type Arg struct {
-	Tag string `json:"tag" xml:"tag"`
-	Pad string `json:"pad" xml:"pad"`
+	Tag string `json:"tag" xml:"tag" form:"tag"`
+	Pad string `json:"pad" xml:"pad" form:"pad"`
 }
 
 // Res is the result type of the instrumented handlers.
 type Res struct {
-	Tag string `json:"tag" xml:"tag"`
-	Pad string `json:"pad" xml:"pad"`
+	Tag string `json:"tag" xml:"tag" form:"tag"`
+	Pad string `json:"pad" xml:"pad" form:"pad"`
 }
 
 // F is the function every OK handler computes on the tag.
